@@ -32,6 +32,8 @@ sub!(c16, "c16.rs");
 sub!(c18, "c18.rs");
 sub!(c08, "c08.rs");
 sub!(c17, "c17.rs");
+sub!(c14, "c14.rs");
+sub!(c19, "c19.rs");
 
 /// SplitMix64: every random choice of a run derives from one state.
 pub struct Rng(pub u64);
@@ -317,6 +319,8 @@ fn run() {
         "C18" => c18::run(&mut report),
         "C08" => c08::run(&mut report),
         "C17" => c17::run(&mut report),
+        "C14" => c14::run(&mut report),
+        "C19" => c19::run(&mut report),
         "C18child" => {
             c18::child();
             return;
